@@ -11,7 +11,14 @@ package bal
 //  (iv)  (ii) holds from the first pick after a reload that changed the eligible
 //        weights/members ("every starting point after a (re)load"); a reload
 //        that leaves the eligible weights unchanged does not start a new epoch,
-//        so windows spanning it must be exact as well.
+//        so windows spanning it must be exact as well;
+//  (v)   an availability change starts a new stable phase: its pick sequence must
+//        be the one the documented algorithm ("credit starts at weight; pick the
+//        greatest credit, add weight to every eligible credit, subtract the sum
+//        of the eligible credits from the chosen one") produces from the credits
+//        it holds at the flip, and from the point where that reference run has
+//        become periodic every window of W' picks must be exact and the sequence
+//        must have period W'.
 
 import (
 	"encoding/json"
@@ -166,7 +173,8 @@ func c01SameMembers(a, b []beSpec) bool {
 }
 
 type c01Epoch struct {
-	startedBy string // "init", "reweight", "members"
+	startedBy string // "init", "reweight", "members", "flip"
+	claimFrom int    // first pick index from which windows / period are claimed (-1: no claim)
 	elig      []beSpec
 	want      map[string]int
 	W         int
@@ -186,6 +194,21 @@ func newC01Epoch(by string, elig []beSpec) *c01Epoch {
 // firstBadWindow returns the start of the first window of W picks whose counts
 // differ from want, or -1.
 func (e *c01Epoch) firstBadWindow() (int, map[string]int) {
+	if e.claimFrom < 0 || len(e.seq)-e.claimFrom < e.W {
+		return -1, nil
+	}
+	full := e.seq
+	defer func() { e.seq = full }()
+	off := e.claimFrom
+	e.seq = full[off:]
+	s, c := e.firstBadWindowAll()
+	if s >= 0 {
+		s += off
+	}
+	return s, c
+}
+
+func (e *c01Epoch) firstBadWindowAll() (int, map[string]int) {
 	if len(e.seq) < e.W {
 		return -1, nil
 	}
@@ -223,13 +246,14 @@ func (e *c01Epoch) firstBadWindow() (int, map[string]int) {
 	return -1, nil
 }
 
-// carry is NOT part of the oracle. It is the documented algorithm of
-// bal_rr.go ("credit starts at weight; pick the greatest credit, add weight to
-// every eligible credit, subtract the sum of credits from the chosen one") plus
-// the one assumption "credits survive a reload". It is consulted only after the
-// oracle found an inexact window in an epoch begun by a reload, to decide whether
-// the violation is exactly the known finding stale-credit-after-reload or
-// something else (which then fails under a different key).
+// carry is the stateful reference model of the documented algorithm of
+// bal_rr.go (file header and property anchors: credit starts at weight; pick
+// the greatest credit, first one wins; add weight to every eligible credit;
+// subtract the sum of the eligible credits from the chosen one). Unavailable or
+// weight<=0 members do not take part and keep their credit. A reload that
+// changes the eligible weights/members restarts all credits at weight, one that
+// does not keeps them. It carries the run across availability changes, where
+// the stateless swrr model cannot be used.
 type carryEntry struct {
 	id     string
 	w      int
@@ -272,10 +296,48 @@ func (c *carry) next() string {
 	return c.es[best].id
 }
 
-// reload: survivors keep credit and availability (credit 0 when the new weight
-// is <= 0), new members start at credit = weight; entries are put in the order
-// the balancer now holds them (new members are appended in map order by bfe).
-func (c *carry) reload(next []beSpec, order []string) {
+func (c *carry) setAvail(id string, v bool) {
+	for i := range c.es {
+		if c.es[i].id == id {
+			c.es[i].avail = v
+		}
+	}
+}
+
+func (c *carry) state() string {
+	var sb strings.Builder
+	for _, e := range c.es {
+		if e.avail && e.w > 0 {
+			fmt.Fprintf(&sb, "%d,", e.credit)
+		}
+	}
+	return sb.String()
+}
+
+// periodicFrom runs a copy of the model for up to limit picks and returns the
+// first pick index t at which the credits equal those W picks later (from
+// there on the reference run is periodic with exact windows), or -1.
+func (c *carry) periodicFrom(W, limit int) int {
+	cp := &carry{es: append([]carryEntry(nil), c.es...)}
+	states := make([]string, 0, limit+W+1)
+	for i := 0; i <= limit+W; i++ {
+		states = append(states, cp.state())
+		cp.next()
+	}
+	for t := 0; t <= limit; t++ {
+		if states[t] == states[t+W] {
+			return t
+		}
+	}
+	return -1
+}
+
+// reload: survivors keep availability; credits restart at weight when the
+// reload changed the eligible weights/members (reset), else they are kept
+// (credit 0 when the new weight is <= 0); new members start at credit = weight;
+// entries are put in the order the balancer now holds them (bfe appends new
+// members in map order).
+func (c *carry) reload(next []beSpec, order []string, reset bool) {
 	old := map[string]carryEntry{}
 	for _, e := range c.es {
 		old[e.id] = e
@@ -286,6 +348,9 @@ func (c *carry) reload(next []beSpec, order []string) {
 			o.w = m.Weight
 			if m.Weight <= 0 {
 				o.credit = 0
+			}
+			if reset {
+				o.credit = m.Weight
 			}
 			nw[m.key()] = o
 		} else {
@@ -302,8 +367,9 @@ func (c *carry) reload(next []beSpec, order []string) {
 }
 
 type c01Upd struct {
-	Kind string
-	Next []beSpec
+	Kind string   // "noop", "noop-perm", "reweight", "members" (reloads) or "flip"
+	Next []beSpec // reloads: the new list
+	Flip []string // flip: "addr:port" of the members whose availability is toggled
 }
 
 type c01Plan struct {
@@ -362,15 +428,45 @@ func genC01Plan(rt *rapid.T) (c01Plan, string) {
 	}
 	p.Periods = rapid.IntRange(3, 6).Draw(rt, "periods")
 	p.OffPct = rapid.IntRange(0, 99).Draw(rt, "offset%")
-	nUpd := rapid.SampledFrom([]int{0, 1, 1, 2, 2}).Draw(rt, "nUpdates")
+	nUpd := rapid.SampledFrom([]int{0, 1, 1, 2, 2, 3, 3}).Draw(rt, "nUpdates")
 	r := regime
 	if r == "equal" {
 		r = "small"
 	}
 	members := p.Members
+	down := map[string]bool{} // availability as the plan evolves (new members of a reload start up)
+	for _, d := range p.Down {
+		down[d] = true
+	}
 	for u := 0; u < nUpd; u++ {
-		kind := rapid.SampledFrom([]string{"noop", "noop-perm", "reweight", "reweight", "members", "members"}).Draw(rt, fmt.Sprintf("upd%d", u))
+		kind := rapid.SampledFrom([]string{"noop", "noop-perm", "reweight", "reweight", "members", "members", "flip", "flip", "flip"}).Draw(rt, fmt.Sprintf("upd%d", u))
 		next := append([]beSpec(nil), members...)
+		if kind == "flip" {
+			// health checker marks members down / brings them back between two stable phases
+			k := rapid.IntRange(1, 2).Draw(rt, fmt.Sprintf("nflip%d", u))
+			var keys []string
+			for j := 0; j < k; j++ {
+				var downNow []string
+				for _, m := range members {
+					if down[m.key()] {
+						downNow = append(downNow, m.key())
+					}
+				}
+				key := members[rapid.IntRange(0, len(members)-1).Draw(rt, fmt.Sprintf("flip%d_%d", u, j))].key()
+				if len(downNow) > 0 && rapid.Bool().Draw(rt, fmt.Sprintf("flipUp%d_%d", u, j)) {
+					key = rapid.SampledFrom(downNow).Draw(rt, fmt.Sprintf("flipWho%d_%d", u, j))
+				}
+				keys = append(keys, key)
+			}
+			if len(keys) == 2 && keys[0] == keys[1] {
+				keys = keys[:1]
+			}
+			for _, k := range keys {
+				down[k] = !down[k]
+			}
+			p.Updates = append(p.Updates, c01Upd{Kind: kind, Flip: keys})
+			continue
+		}
 		switch kind {
 		case "noop-perm":
 			next = rapid.Permutation(next).Draw(rt, fmt.Sprintf("perm%d", u))
@@ -411,7 +507,7 @@ func genC01Plan(rt *rapid.T) (c01Plan, string) {
 				next = rapid.Permutation(next).Draw(rt, fmt.Sprintf("permM%d", u))
 			}
 		}
-		p.Updates = append(p.Updates, c01Upd{kind, next})
+		p.Updates = append(p.Updates, c01Upd{Kind: kind, Next: next})
 		members = next
 	}
 	return p, regime
@@ -421,13 +517,13 @@ func (p c01Plan) fingerprint() string {
 	var sb strings.Builder
 	fmt.Fprintf(&sb, "%s|%v|%s|%v|p%d o%d", p.Path, p.Blackhole0, fmtBackends(p.Members), p.Down, p.Periods, p.OffPct)
 	for _, u := range p.Updates {
-		fmt.Fprintf(&sb, "|%s:%s", u.Kind, fmtBackends(u.Next))
+		fmt.Fprintf(&sb, "|%s:%s%v", u.Kind, fmtBackends(u.Next), u.Flip)
 	}
 	return sb.String()
 }
 
 func TestC01(t *testing.T) {
-	rec := ev.New("C01", "1..8 backends (weights 1..20, sometimes 1..3 / 1..100 / all equal, weight<=0 and unavailable members mixed in) loaded by ClusterTableLoad into BalanceRR (direct) or a single-sub-cluster BalanceGslb installed via BalTable; 3..6 periods + offset of WrrSmooth picks per epoch, up to 2 reloads (no-op, permuted no-op, reweight, member change). non-trivial: >=2 eligible backends with >=2 distinct weights and >=3 periods observed; distinct by members+weights+availability+path+pick counts+reload script")
+	rec := ev.New("C01", "1..8 backends (weights 1..20, sometimes 1..3 / 1..100 / all equal, weight<=0 and unavailable members mixed in) loaded by ClusterTableLoad into BalanceRR (direct) or a single-sub-cluster BalanceGslb installed via BalTable; 3..6 periods + offset of WrrSmooth picks per epoch, up to 3 changes between stable phases: reloads (no-op, permuted no-op, reweight, member change) and availability flips of 1-2 members (down, or back up with the restart flag as the health checker does). non-trivial: >=2 eligible backends with >=2 distinct weights and >=3 periods observed; distinct by members+weights+availability+path+pick counts+reload script")
 	if p := os.Getenv("VERIF_REPLAY_JSON"); p != "" {
 		var doc struct {
 			Witness struct {
@@ -445,7 +541,7 @@ func TestC01(t *testing.T) {
 	a, b := beSpec{"a", "10.0.0.1", 80, 1}, beSpec{"b", "10.0.0.2", 80, 2}
 	b1 := b
 	b1.Weight = 1
-	c01Run(t, rec, c01Plan{Path: "rr", Members: []beSpec{a, b}, Periods: 3, Updates: []c01Upd{{"reweight", []beSpec{a, b1}}}}, "witness")
+	c01Run(t, rec, c01Plan{Path: "rr", Members: []beSpec{a, b}, Periods: 3, Updates: []c01Upd{{Kind: "reweight", Next: []beSpec{a, b1}}}}, "witness")
 	c01SlowStartFinished(t, rec)
 	rapid.Check(t, func(rt *rapid.T) {
 		p, regime := genC01Plan(rt)
@@ -631,21 +727,41 @@ func c01Run(tb ev.TB, rec *ev.Rec, p c01Plan, class string) {
 			}
 			w["window_head"] = ep.seq[s:hi]
 			key := "fresh-window" + suffix(s+ep.W-1)
-			if ep.startedBy != "init" {
+			switch ep.startedBy {
+			case "init":
+			case "flip":
+				key = "window-after-availability-change"
+				w["claimed_from_pick"] = ep.claimFrom
+			default:
 				key = "post-reload-window"
-				same := len(carrySeq) == len(ep.seq)
-				for i := 0; same && i < len(ep.seq); i++ {
-					same = carrySeq[i] == ep.seq[i]
-				}
-				if same {
-					key = "stale-credit-after-reload"
-				}
 			}
 			rec.Fail(tb, key, w, "window of W=%d picks starting at pick #%d of the epoch begun by %q has counts %v, want %v", ep.W, s, ep.startedBy, cnt, ep.want)
 			return false
 		}
+		// (v) and reload epochs: exact sequence of the documented algorithm from its state
+		if ep.startedBy != "init" {
+			for i := range ep.seq {
+				if ep.seq[i] != carrySeq[i] {
+					w := witness()
+					w["index"] = i
+					hi := i + 1
+					lo := hi - 24
+					if lo < 0 {
+						lo = 0
+					}
+					w["got_tail"] = ep.seq[lo:hi]
+					w["want_tail"] = carrySeq[lo:hi]
+					key := "sequence-after-reload"
+					if ep.startedBy == "flip" {
+						key = "sequence-after-availability-change"
+					}
+					rec.Fail(tb, key, w, "pick #%d of the phase begun by %q is %s, the documented algorithm continued from its credits gives %s (eligible %s)", i, ep.startedBy, ep.seq[i], carrySeq[i], fmtBackends(ep.elig))
+					return false
+				}
+			}
+		}
 		// (iii) period W
-		for i := 0; i+ep.W < len(ep.seq); i++ {
+		for i := ep.claimFrom; ep.claimFrom >= 0 && i+ep.W < len(ep.seq); i++ {
 			if ep.seq[i] != ep.seq[i+ep.W] {
 				w := witness()
 				w["index"] = i
@@ -659,7 +775,11 @@ func c01Run(tb ev.TB, rec *ev.Rec, p c01Plan, class string) {
 		if ep.W == 0 {
 			return 1
 		}
-		return p.Periods*ep.W + p.OffPct*ep.W/100
+		n := p.Periods*ep.W + p.OffPct*ep.W/100
+		if ep.startedBy == "flip" && ep.claimFrom > 0 {
+			n += ep.claimFrom // observe full periods behind the transient of the reference run
+		}
+		return n
 	}
 
 	distinct := map[int]bool{}
@@ -680,6 +800,51 @@ func c01Run(tb ev.TB, rec *ev.Rec, p c01Plan, class string) {
 		if !ok {
 			break
 		}
+		if u.Kind == "flip" {
+			hs := bal.handles()
+			flipped := []string{}
+			for _, k := range u.Flip {
+				if _, ok := avail[k]; !ok || len(hs[k]) == 0 {
+					continue // removed by an earlier reload
+				}
+				nv := !avail[k]
+				if nv {
+					hs[k][0].SetRestart(true) // what the health checker does on recovery
+				}
+				hs[k][0].SetAvail(nv)
+				avail[k] = nv
+				cm.setAvail(k, nv)
+				flipped = append(flipped, fmt.Sprintf("%s=%v", k, nv))
+			}
+			nUpd++
+			nelig := c01Eligible(members, avail)
+			if c01Same(ep.elig, nelig) {
+				ep.noopAt = append(ep.noopAt, len(ep.seq))
+				classes = append(classes, "upd=flip-of-ineligible-member")
+			} else {
+				kind := "flip:down"
+				if len(nelig) > len(ep.elig) {
+					kind = "flip:up"
+				} else if len(nelig) == len(ep.elig) {
+					kind = "flip:swap"
+				}
+				ep = newC01Epoch("flip", nelig)
+				carrySeq = nil
+				// the documented algorithm keeps its credits across the change; the
+				// window law is claimed from where its own run has become periodic
+				if ep.W > 0 {
+					ep.claimFrom = cm.periodicFrom(ep.W, 3000)
+					if ep.claimFrom < 0 {
+						kind += ",no-window-claim"
+					} else if ep.claimFrom > 0 {
+						kind += ",transient"
+					}
+				}
+				classes = append(classes, "upd="+kind)
+			}
+			ok = doPicks(pickCount())
+			continue
+		}
 		if err := bal.update(u.Next); err != nil {
 			// the loader refuses a list without any positive weight: bfe keeps
 			// the old configuration, nothing new to observe
@@ -697,8 +862,8 @@ func c01Run(tb ev.TB, rec *ev.Rec, p c01Plan, class string) {
 		}
 		avail = nav
 		members = u.Next
-		cm.reload(members, bal.order())
 		nelig := c01Eligible(members, avail)
+		cm.reload(members, bal.order(), !c01Same(ep.elig, nelig))
 		if c01Same(ep.elig, nelig) {
 			ep.noopAt = append(ep.noopAt, len(ep.seq))
 			classes = append(classes, "upd=effective-noop("+u.Kind+")")
